@@ -1314,12 +1314,15 @@ func (s *Store) GetRelatedAtTime(from *RelatedFrom, limit int) ([]qresult, *Rela
 
 				// get deleted
 				del := binary.BigEndian.Uint16(k[34:])
-				if del != 1 && hasReachedStartKey {
-					if limit != 0 && len(results) >= limit {
-						break
+				if del != 1 {
+					if hasReachedStartKey {
+						if limit != 0 && len(results) >= limit {
+							break
+						}
+						copy(cont.RelationIndexFromKey, k)
+						results = append(results, qresult{Time: uint64(et), EntityID: relatedID, PredicateID: predID, DatasetID: datasetID})
 					}
-					copy(cont.RelationIndexFromKey, k)
-					results = append(results, qresult{Time: uint64(et), EntityID: relatedID, PredicateID: predID, DatasetID: datasetID})
+					// a live key above the start key was returned (or already covered) by an earlier page
 					added[predID][relatedID] = true
 				}
 
